@@ -67,7 +67,7 @@ def scalar_binop(ex, op, a, b):
             ex.ctx.check_or_raise(to_z3(b) != 0, "ZeroDivisionError", "integer division by zero")
         elif b == 0:
             raise SymRaise("ZeroDivisionError", "")
-        return py_floordiv(a, b)
+        return ex.ctx.canon(py_floordiv(a, b))
     if op == "Mod":
         if conc:
             if b == 0:
@@ -123,9 +123,12 @@ def _isbool(v):
     return isinstance(v, bool) or is_sym_bool(v)
 
 
-def elem_binop(ex, op, a, b):
+def elem_binop(ex, op, a, b, array=False):
     if op in ("BitAnd", "BitOr", "BitXor") and _isbool(a) and _isbool(b):
         return bool_binop(op, a, b)
+    if array and op == "Div" and (is_z3(a) or is_z3(b)):
+        # numpy float division never raises (x/0 is inf/nan): a total, otherwise unspecified value for b == 0
+        return to_real(b2i(a)) / to_real(b2i(b))
     return scalar_binop(ex, op, a, b)
 
 
@@ -245,7 +248,7 @@ def binop(ex, op, a, b):
             a = Vec(a)
         if isinstance(b, (list, tuple)):
             b = Vec(b)
-        return nd_elementwise(ex, lambda x, y: elem_binop(ex, op, x, y), a, b)
+        return nd_elementwise(ex, lambda x, y: elem_binop(ex, op, x, y, array=True), a, b)
     if _arr_like(a) or _arr_like(b):
         if isinstance(a, (list, tuple)):
             a = Vec(a)
@@ -434,6 +437,14 @@ def compare(ex, op, a, b):
     if isinstance(a, FuncVal) or isinstance(b, FuncVal):
         r = a == b
         return r if op == "Eq" else not r
+    if (isinstance(a, SymSeq) or isinstance(b, SymSeq)) and op in ("Eq", "NotEq") and \
+            isinstance(a, (SymSeq, list)) and isinstance(b, (SymSeq, list)):
+        la = a.length if isinstance(a, SymSeq) else len(a)
+        lb = b.length if isinstance(b, SymSeq) else len(b)
+        if (isinstance(lb, int) and lb == 0) or (isinstance(la, int) and la == 0):
+            r = to_z3(la) == to_z3(lb)
+            return r if op == "Eq" else z3.Not(r)
+        raise Unsupported("equality of symbolic-length lists")
     if op in ("Eq", "NotEq"):
         if type(a) is type(b) and isinstance(a, (dict, set, range, slice)):
             return CMP[op](a, b)
